@@ -73,6 +73,11 @@ claimed = {
   note="meta.Data is generated and installed in every node's meta client (no raft traffic); hinted handoff is stubbed off; storage reads (ReadFilter/ReadGroup of the storage service) are not driven; equal-timestamp rows of different series are compared as a multiset; six shapes of silently incomplete success are listed known findings (clean close mid-stream, faulty owner answering type/metadata lookups as empty, metadata lookups ignoring node errors, unknown field type when the sole owner is unreachable); residual nondeterminism of the Go runtime (map iteration, select) means a replay is attempted up to 12 times",
   technique=SIM + ": in-process cluster on a simulated network with per-connection fault policies, reference-cluster comparison, fake clock for timeouts",
   ref="3 C05"),
+ "C15": dict(
+  text="Two real data nodes on the simulated network. Real client calls (ShardWriter, MetaExecutor incl. storage reads, coordinator.Client) from node 1 to node 2 are recorded byte for byte: the corpus of well-formed request streams (17 request kinds). A hostile peer sends 1-5 streams per run: corpus entries with 0-3 mutations (bit flip, type byte, first length prefix from a table of negative / huge / off-by-one / legal-but-huge values, truncation, garbage tail, random payload, repeated frame), valid write envelopes around valid / truncated / bit-flipped / random / empty point bytes, or raw noise - over fragmenting and slow connections, closed before or after waiting for a reply. Each stream is served by the node's real connection handler on a watched goroutine (panic = node crash), then again through the real tcp.Mux and accept loop. Oracles: no panic; allocation growth while serving a stream <= documented 1 GiB frame limit (+slack); every point handed to the storage layer is a decodable point; the handler returns after the peer closed; after each stream a real lookup returns, after all of them a real write is served back; bubble deadlock (e.g. a leaked reference that blocks Store.Close). Round trips with generated values: write requests, create-iterator requests with generated iterator options, responses with errors, and points of all five types (tags with empty values, aux values of every kind incl. typed nils, nil points, extreme times/values) through the real IteratorEncoder, a fragmenting connection and the real ReaderIterator.",
+  note="what a node answers to a damaged stream is not judged (after an unknown type byte it resynchronises on what follows; a stream may happen to be a legal administrative request such as remove-shard); join/leave cluster requests reach a stub Server; TLS is not used; allocation is observed through runtime.MemStats.TotalAlloc, so a bound violation smaller than the slack (256 MiB) is not seen",
+  technique=SIM + ": recorded-corpus mutation and seeded hostile streams against the real connection handler in-process, fragmenting/slow simulated connections, encode/stream/decode round trips",
+  ref="3 C15"),
  "C18": dict(
   text="A source store built by a seeded history (cache, files, tombstones, un-snapshotted cache) is backed up in full on the still open store (one run in three with an acknowledged write parked inside the backup's own cache snapshot), the stream restored with RestoreShard into a fresh store - the path a shard copy takes - and compared through both read paths, also after a restart of the destination; the source must be unchanged; 0-6 cuts of the stream (tar block boundaries, before the trailer, random offsets) are offered to RestoreShard and must not yield a 'successful' incomplete shard; a time-bounded export/import is compared with the model restricted to the range.",
   note="the network between source and destination is a buffer cut at seeded offsets; coordinator.Service's CopyShard RPC and the meta handler adding the owner are not run; incremental (since) backups are not explored (file mtimes are real time, the simulation clock is fake); truncated-stream acceptance and the broken time-bounded export are listed known findings",
